@@ -23,6 +23,15 @@ R  event re-use: an event is played, one or two of its keys (freq, amp,
    instruments with and without a gate; the second `/s_new` (+ gate-off) must
    carry the values of the event as it is at the second play, fresh node id.
 
+D  redefinition: one instrument NAME is defined, played (note / Pbind /
+   Pmono), defined again under the same name with another set or order of
+   controls and with / without gate (re-added, removed and added, or added to
+   a second SynthDescLib the event names with `synth_lib`), played again
+   (also while a Pbind of the first step is still running), up to three
+   definitions; every message carries the controls of the definition current
+   in the event's library at play time.  Names are unique per case and are
+   removed from the libraries afterwards.
+
 Widened by the audit (all in the same families):
 
 P+ zero / negative / falsy control values, a sustain of zero, non-dyadic
@@ -645,7 +654,7 @@ def compare(expected, score, lat):
                         [e['t'] + a.get('lat', lat0), a['instr'], e['tag']],
                         [[x['t'], x['name'], x['rest']] for x in snew], ''))
             continue
-        ctrls = ctrls_of(a['instr'])
+        ctrls = a['ctrls'] if 'ctrls' in a else ctrls_of(a['instr'])
         lat = a.get('lat', lat0)     # an event may name its own server
         if not ref.close(s['t'], e['t'] + lat):
             out.append(('snew-time', e['t'] + lat, s['t'],
@@ -1283,6 +1292,291 @@ def nontrivial_R(case):
     as a control."""
     return any(k in ctrls_of(instr_name(case['instr']))
                for k in case['change'])
+
+
+# ---------------------------------------------------------------------------
+# family D: an instrument name that is defined more than once
+# ---------------------------------------------------------------------------
+#
+# One routine: (re)define the name with a list of controls (in the default
+# SynthDescLib, or in a second library that the event names with its
+# `synth_lib` key), play an event / Pbind / Pmono with it, wait, redefine the
+# SAME name with another set / order of controls (with or without gate), play
+# again, ...  Every message must carry the controls of the definition that is
+# current (in the library the event uses) when the event is played.  The name
+# is unique per case (derived from the case), so nothing a case leaves behind
+# in the process - in the library or in any cache of the code under test -
+# can reach another case, and a replay in a fresh process sees the same.
+
+D_DEFS = {'A': ['freq', 'amp', 'gate'],
+          'B': ['freq', 'amp', 'cutoff', 'pan', 'gate'],
+          'C': ['cutoff', 'freq'],
+          'D': ['amp', 'freq', 'gate'],
+          'E': ['freq', 'pan']}
+D_GIVEN = [{'amp': 0.25, 'cutoff': 300, 'pan': 0.5}, {'cutoff': 300},
+           {'amp': 0.25, 'pan': -0.5}]
+D_KIND_TIMES = {'note': [0.0], 'pbind': [0.0, 0.5], 'pbind3': [0.0, 0.5, 1.0],
+                'pmono': [0.0, 0.5]}
+D_SECOND_LIB = 'c14second'
+
+
+def d_name(case):
+    return 'c14r' + core.digest({k: v for k, v in case.items()})
+
+
+def d_lib(which):
+    from sc3.synth.synthdesc import SynthDescLib
+    if which == 'default':
+        return SynthDescLib.default
+    if D_SECOND_LIB not in SynthDescLib.all:
+        SynthDescLib(D_SECOND_LIB)
+    return SynthDescLib.get_lib(D_SECOND_LIB)
+
+
+def d_define(name, ctrls, which, remove_first=False):
+    from sc3.synth.synthdef import SynthDef
+    from sc3.synth.ugens import Out, DC
+    src = 'def f(%s):\n    Out.ar(0, DC.ar(0))\n' % \
+        ', '.join(f'{c}=0.5' for c in ctrls)
+    ns = {'Out': Out, 'DC': DC}
+    exec(src, ns)
+    lib = d_lib(which)                   # creates the second library
+    if remove_first:
+        lib.remove_at(name)
+    sdef = SynthDef(name, ns['f'])
+    _D_DEFINED.append(sdef)
+    sdef.add(None if which == 'default' else D_SECOND_LIB)
+
+
+_D_DEFINED = []
+_D_KEEP = []
+
+
+def d_forget(name):
+    """The worker's instrument tables are as before the case.  The
+    definitions of the case become garbage here: their byte buffer (a
+    memoryview exported by a BytesIO, SynthDef.as_bytes) is released first,
+    CPython aborts when the cycle collector frees such a pair in the wrong
+    order."""
+    for which in ('default', 'second'):
+        d_lib(which).synth_descs.pop(name, None)
+    for sdef in _D_DEFINED:
+        try:
+            buf = sdef._bytes
+            sdef._bytes = None
+            if buf is not None:
+                buf.release()
+        except Exception:
+            _D_KEEP.append(sdef)         # never collected instead
+    del _D_DEFINED[:]
+
+
+def d_step_pattern(st, name, base):
+    """Plain-data pattern of a pattern step (without the synth_lib key)."""
+    n = len(D_KIND_TIMES[st['play']])
+    d = dict(st['given'])
+    d['midinote'] = ['Pseq', list(range(base, base + n)), 1]
+    d['dur'] = ['Pseq', [0.5] * n, 1]
+    if st['play'] == 'pmono':
+        return ['Pmono', name, d]
+    d['instrument'] = name
+    return ['Pbind', d]
+
+
+def d_play(st, name, base):
+    from sc3.seq.event import event
+    from sc3.seq.patterns import eventpatterns as ep
+    extra = {} if st['lib'] == 'default' else {'synth_lib': d_lib(st['lib'])}
+    if st['play'] == 'note':
+        event(dict(st['given'], instrument=name, midinote=base,
+                   **extra)).play()
+        return
+    pat = d_step_pattern(st, name, base)
+    keys = pat[1] if pat[0] == 'Pbind' else pat[2]
+    keys = {k: lib_vp(k, v) for k, v in keys.items()}
+    keys.update(extra)
+    if pat[0] == 'Pmono':
+        ep.Pmono(name, keys).play()
+    else:
+        ep.Pbind(keys).play()
+
+
+def d_base(i):
+    return 40 + 10 * i
+
+
+def d_expected(case, name):
+    """Actions expected for the case; the definition that counts for an event
+    is the last one made in its library at or before its time (cases are
+    generated so that no event of a running pattern coincides with a later
+    redefinition)."""
+    hist = {'default': [], 'second': []}      # library -> [(time, ctrls)]
+    t = case['at'] or 0
+
+    def ctrls_at(which, when):
+        cur = None
+        for tt, c in hist[which]:
+            if tt <= when:
+                cur = c
+        if cur is None:
+            raise core.HarnessError('play before any definition')
+        return cur
+    # definitions first (times), then the plays
+    starts, tt = [], t
+    for st in case['steps']:
+        if st['def'] is not None:
+            hist[st['lib']].append((tt, D_DEFS[st['def']]))
+        starts.append(tt)
+        tt += st['wait']
+    def_times = [x for h in hist.values() for x, _ in h]
+    exp = []
+    for i, st in enumerate(case['steps']):
+        base, t0 = d_base(i), starts[i]
+        times = [t0 + x for x in D_KIND_TIMES[st['play']]]
+        for x in times[1:]:
+            if any(x == dt for dt in def_times):
+                raise core.HarnessError('event coincides with a redefinition')
+        if st['play'] == 'pmono':
+            ctrls = ctrls_at(st['lib'], t0)
+            if any(ctrls_at(st['lib'], x) is not ctrls for x in times):
+                raise core.HarnessError('Pmono voice across a redefinition '
+                                        'is not decided')
+            voice = {'kind': 'mono', 'instr': name, 'ctrls': ctrls,
+                     'action': 0, 'group': 1, 'events': []}
+            for k, x in enumerate(times):
+                g = dict(st['given'], midinote=base + k)
+                voice['events'].append({'t': x, 'tag': base + k,
+                                        'rest': False,
+                                        'spec': ref.note_spec(g, ctrls)})
+            exp.append(voice)
+        else:
+            for k, x in enumerate(times):
+                ctrls = ctrls_at(st['lib'], x)
+                g = dict(st['given'], midinote=base + k)
+                if st['play'] != 'note':
+                    g['dur'] = 0.5
+                exp.append({'kind': 'note', 't': x, 'instr': name,
+                            'ctrls': ctrls, 'action': 0, 'group': 1,
+                            'tag': base + k,
+                            'spec': ref.note_spec(g, ctrls)})
+    return exp
+
+
+def d_feature(case):
+    if any(st['lib'] != 'default' for st in case['steps']):
+        return '@second-library'
+    return '@redefined'
+
+
+def check_D(case, info):
+    name = d_name(case)
+    at, lat = case['at'], case['lat']
+    feat = d_feature(case)
+
+    def body():
+        from sc3.base import stream as stm
+
+        def rfunc():
+            if at:
+                yield at
+            for i, st in enumerate(case['steps']):
+                if st['def'] is not None:
+                    d_define(name, D_DEFS[st['def']], st['lib'],
+                             bool(st.get('remove')))
+                d_play(st, name, d_base(i))
+                if st['wait']:
+                    yield st['wait']
+        stm.Routine(rfunc).play()
+    try:
+        r = run_score(lat, body, at=None)
+    finally:
+        d_forget(name)          # the worker's instrument table is as before
+    score = None
+    if r['score'] is not None:
+        # the definition messages are not part of the property
+        score = []
+        for b in r['score']:
+            nb = [m for m in b[1:] if not (isinstance(m, list) and m
+                                           and m[0] == '/d_recv')]
+            if nb or len(b) == 1:
+                score.append([b[0]] + nb)
+    info['outcome'] = renumber(score) if score else r['exc']
+    out = desc_disc(r, 'D:')
+    if score is None or r['log']:
+        return out + [(f'D:play-raises{feat}', 'the notes of every step',
+                       r['exc'] or r['log'], '')]
+    for disc, e, o, det in compare(d_expected(case, name), score, lat):
+        out.append((f'D:{disc}{feat}', e, o,
+                    (det + ' | definitions in order: ' + ', '.join(
+                        f'{st["lib"]}:{D_DEFS[st["def"]]}'
+                        for st in case['steps'] if st['def']))[:600]))
+    return out
+
+
+def gen_D(tier):
+    q = tier == 'quick'
+    names = sorted(D_DEFS)
+    kinds1 = ['note', 'pbind', 'pmono', 'pbind3']
+    kinds2 = ['note', 'pbind', 'pmono']
+    n = 0
+
+    def step(d, lib, play, g, wait, remove=False):
+        st = {'def': d, 'lib': lib, 'play': play, 'given': D_GIVEN[g % 3],
+              'wait': wait}
+        if remove:
+            st['remove'] = True
+        return st
+
+    def case(steps):
+        nonlocal n
+        n += 1
+        return {'fam': 'D', 'at': [None, 0.5][n % 2], 'lat': [0.25, 0][n % 3
+                                                                       == 0],
+                'steps': steps}
+    for d1 in names:
+        for d2 in names:
+            if d1 == d2:
+                continue
+            for k1 in kinds1:
+                for k2 in kinds2:
+                    for g in range(3):
+                        for w in (0.75,) if q else (0.75, 2.25):
+                            # the name is added again in the default library
+                            yield case([step(d1, 'default', k1, g, w),
+                                        step(d2, 'default', k2, g + 1, 0)])
+                            if k1 == 'pbind3' and w == 0.75:
+                                continue      # one library at a time below
+                            # the same name in a second library
+                            yield case([step(d1, 'default', k1, g, w),
+                                        step(d2, 'second', k2, g + 1, w),
+                                        step(None, 'default', k2, g + 2, 0)])
+                            yield case([step(d1, 'second', k1, g, w),
+                                        step(d2, 'default', k2, g + 1, w),
+                                        step(None, 'second', 'note', g + 2,
+                                             0)])
+                # removed, then added again
+                yield case([step(d1, 'default', k1, 0, 2.25),
+                            step(d2, 'default', 'note', 0, 0, remove=True)])
+    # three definitions in a row
+    for d1, d2, d3 in itertools.permutations(names, 3):
+        for i, (k1, k2, k3) in enumerate(
+                [('note', 'note', 'note'), ('pbind3', 'pmono', 'note'),
+                 ('pmono', 'pbind3', 'pbind')]):
+            if q and (names.index(d1) + names.index(d2) + i) % 3:
+                continue
+            yield case([step(d1, 'default', k1, i, 0.75),
+                        step(d2, 'default', k2, i + 1, 0.75),
+                        step(d3, 'default', k3, i + 2, 0)])
+
+
+def nontrivial_D(case):
+    """A later play defines a control on which the definitions differ."""
+    defs = [D_DEFS[st['def']] for st in case['steps'] if st['def']]
+    diff = set()
+    for a in defs:
+        for b in defs:
+            diff |= set(a) ^ set(b)
+    return any(k in diff for st in case['steps'][1:] for k in st['given'])
 
 
 # ---------------------------------------------------------------------------
@@ -2084,6 +2378,45 @@ def standalone(case):
                           'ctor_mixed': f'event({{}}, **{d}).play()',
                           'ctor_copy': f'event(event({d})).play()'}[via])
         lines.append('main.reset()')
+    elif fam == 'D':
+        at, lat = case['at'], case['lat']
+        name = d_name(case)
+        lines.append('from sc3.synth.synthdesc import SynthDescLib')
+        lines.append(f'lib2 = SynthDescLib({D_SECOND_LIB!r})')
+        lines.append(
+            'def define(controls, libname=None):\n'
+            "    ns = {'Out': Out, 'DC': DC}\n"
+            "    exec('def f(%s):\\n    Out.ar(0, DC.ar(0))' % ', '.join(\n"
+            "        c + '=0.5' for c in controls), ns)\n"
+            f"    SynthDef({name!r}, ns['f']).add(libname)")
+        plays = []
+        for i, st in enumerate(case['steps']):
+            second = st['lib'] != 'default'
+            if st['def'] is not None:
+                if st.get('remove'):
+                    plays.append(('lib2' if second else
+                                  'SynthDescLib.default')
+                                 + f'.remove_at({name!r})')
+                plays.append(f'define({D_DEFS[st["def"]]!r}'
+                             + (f', {D_SECOND_LIB!r})' if second else ')'))
+            lib = "'synth_lib': lib2, " if second else ''
+            if st['play'] == 'note':
+                d = src_dict(dict(st['given'], instrument=name,
+                                  midinote=d_base(i)))
+                plays.append(f'event({{{lib}**{d}}}).play()')
+            else:
+                pat = d_step_pattern(st, name, d_base(i))
+                d = src_dict(pat[1] if pat[0] == 'Pbind' else pat[2], True)
+                if pat[0] == 'Pmono':
+                    plays.append(f'Pmono({name!r}, {{{lib}**{d}}}).play()')
+                else:
+                    plays.append(f'Pbind({{{lib}**{d}}}).play()')
+            if st['wait']:
+                plays.append(f'yield {st["wait"]!r}')
+        if not plays[-1].startswith('yield') and not any(
+                x.startswith('yield') for x in plays):
+            plays.append('yield 0')
+        lines.append('main.reset()')
     elif fam == 'R':
         at, lat = case['at'], case['lat']
         name = instr_name(case['instr'])
@@ -2167,6 +2500,8 @@ def check_case(case, info=None):
         dis = check_S(case, info)
     elif fam == 'R':
         dis = check_R(case, info)
+    elif fam == 'D':
+        dis = check_D(case, info)
     else:
         raise core.HarnessError(f'bad family {fam}')
     seen, out = set(), []
@@ -2179,7 +2514,7 @@ def check_case(case, info=None):
 
 def is_nontrivial(case):
     return {'K': nontrivial_K, 'P': nontrivial_P, 'S': nontrivial_S,
-            'R': nontrivial_R}[case['fam']](case)
+            'R': nontrivial_R, 'D': nontrivial_D}[case['fam']](case)
 
 
 def replay(job):
@@ -2225,6 +2560,8 @@ def part_cases(job):
                                 job['of'])
     if part == 'R':
         return itertools.islice(gen_R(tier), job['shard'], None, job['of'])
+    if part == 'D':
+        return itertools.islice(gen_D(tier), job['shard'], None, job['of'])
     raise core.HarnessError(f'bad part {part}')
 
 
@@ -2236,6 +2573,7 @@ def jobs(tier):
     js += [{'part': 'Px', 'shard': i, 'of': 16} for i in range(16)]
     js += [{'part': 'S', 'shard': i, 'of': 32} for i in range(32)]
     js += [{'part': 'R', 'shard': i, 'of': 4} for i in range(4)]
+    js += [{'part': 'D', 'shard': i, 'of': 16} for i in range(16)]
     for j in js:
         j['tier'] = tier
     return js
@@ -2280,12 +2618,17 @@ def main(ctx):
         '(proto, right operand of Pchain), chain(), play()/EventStreamPlayer '
         'entry points, a pattern played twice, PmonoArtic; (R) 8 instruments x 3 events '
         'x 7 key changes x {in place, copy(), proto of a Pbind} x time/'
-        'latency: play, change, play again. Non-trivial: (K) >=2 keys of '
+        'latency: play, change, play again; (D) one instrument name defined '
+        '2-3 times (5 control lists: sets, orders, with/without gate; '
+        're-added, removed+added, second SynthDescLib via synth_lib) with a '
+        'note / Pbind / Pmono played after each definition, a Pbind running '
+        'across a redefinition. Non-trivial: (K) >=2 keys of '
         'one chain collide or a modifier/scale meets an explicit main key; '
         '(P) instrument controls and event keys overlap only partly, or two '
         'events share a routine; (S) a pattern is nested in a pattern or '
         'Ppar children interleave; (R) a changed key is a control of the '
-        'instrument. All cases are distinct.')
+        'instrument; (D) a later play defines a control on which the '
+        'definitions differ. All cases are distinct.')
     ctx.assumptions += [
         'reference semantics mc/oracles/event_ref.py written from the '
         'SuperCollider Event/Scale/Tuning/Pbind/Pmono/Ppar/Pchain/Pfindur '
